@@ -66,6 +66,7 @@ def body_classes(cube, **kw):
     tp = pick(kw['tp'], TTCV)
     ta = pick(kw['ta'], TTCV)
     cs = (idx(kw['c0'], 3), 0, idx(kw['c2'], 4), 0)
+    go = idx(kw['go'], 3) if 'go' in kw else 0
     with notrace(), reclimit():
         spec = langs.L_INH(cs)
         for a in spec['assets']:
@@ -74,6 +75,10 @@ def body_classes(cube, **kw):
                     s['ttc'] = copy.deepcopy(tp)
                 if s['name'] == 'dA':
                     s['ttc'] = copy.deepcopy(ta)
+                if s['name'] == 'dP' and a['name'] == 'G1' and go > 0:
+                    # G1 redefines the inherited defense with '->' and another status
+                    s['reaches']['overrides'] = True
+                    s['ttc'] = copy.deepcopy(langs.DISABLED if go == 1 else None)
         if cs[2] == 3 and cs[0] == 0:
             return ''
         lg, lcf = langs.build_lang(spec)
@@ -132,6 +137,7 @@ def body_assoc(cube, **kw):
     l0, l1 = idx(kw['l0'], 4), idx(kw['l1'], 3)
     r0, r1, r2 = idx(kw['r0'], 2), idx(kw['r1'], 3), idx(kw['r2'], 2)
     dup = bool(kw['dup'])
+    cross = bool(kw['cross']) if 'cross' in kw else False
     with notrace(), reclimit():
         spec = langs.L_INH()
         lg, lcf = langs.build_lang(spec)
@@ -166,6 +172,17 @@ def body_assoc(cube, **kw):
             m.add_association(a)
             return a
         first_ok = False
+        cross_link = False
+        if cross and not dup and len(left) == 2 and len(set(left)) == 2 and valid:
+            # the last left member is already linked to the first right member by a single-pair association of the same kind
+            try:
+                a0 = getattr(lcf.ns, kind)()
+                setattr(a0, decl['leftField'], [pool[left[-1]]])
+                setattr(a0, decl['rightField'], [pool[right[0]]])
+                m.add_association(a0)
+                cross_link = True
+            except Exception:
+                cross_link = False
         if dup:
             try:
                 attempt()
@@ -183,9 +200,9 @@ def body_assoc(cube, **kw):
             attempt()
         except Exception as e:
             ok = False
-        want_ok = valid and not (dup and first_ok)
+        want_ok = valid and not (dup and first_ok) and not cross_link
         desc = '%s left=%s right=%s%s' % (kind, [str(pool[i].name) for i in left], [str(pool[i].name) for i in right],
-                                          ' (already present)' if dup and first_ok else '')
+                                          ' (already present)' if dup and first_ok else (' (one cross pair already linked)' if cross_link else ''))
         if ok and not want_ok:
             return 'association %s was accepted although the language/model forbids it' % desc
         if not ok and want_ok:
@@ -210,19 +227,19 @@ def queries(tier):
                         witnesses=[({'defense': dn}, {'d': 0.5}), ({'defense': dn}, {'d': 1.5}), ({'defense': dn}, {'d': -0.25})],
                         bound='symbolic float d (every finite real, +-inf; NaN skipped) assigned to defense %s of a G1 asset: '
                               'accepted iff 0 <= d <= 1, stored value equals d, a rejected assignment leaves the value unchanged' % dn))
-    ps = [I('tp', 0, 3), I('ta', 0, 3), I('c0', 0, 2), I('c2', 0, 3)]
+    ps = [I('tp', 0, 3), I('ta', 0, 3), I('c0', 0, 2), I('c2', 0, 3), I('go', 0, 2)]
     qs.append(Query(name='classes', body=body_classes, params=ps, split=['tp'], timeout=500,
-                    witnesses=[({}, {'tp': 0, 'ta': 1, 'c0': 2, 'c2': 3}), ({}, {'tp': 2, 'ta': 3, 'c0': 1, 'c2': 0})],
+                    witnesses=[({}, {'tp': 0, 'ta': 1, 'c0': 2, 'c2': 3, 'go': 1}), ({}, {'tp': 2, 'ta': 3, 'c0': 1, 'c2': 0, 'go': 0})],
                     bound='L_INH variants: TTC of defense dP (on abstract P) and dA over [Enabled, Disabled, none, Exponential], step s declared at P/G1 in '
-                          '3 x 4 ways; every asset type, its inherited defenses and defaults, every association class incl. both Dup sub-entries'))
-    ps = [I('k', 0, 4), I('l0', 0, 3), I('l1', 0, 2), I('r0', 0, 1), I('r1', 0, 2), I('r2', 0, 1), B('dup')]
-    qs.append(Query(name='assoc', body=body_assoc, params=ps, split=['k', 'dup'], timeout=500,
+                          '3 x 4 ways, G1 extending or overriding (->) the inherited defense dP with another status; every asset type, its inherited defenses and defaults, every association class incl. both Dup sub-entries'))
+    ps = [I('k', 0, 4), I('l0', 0, 3), I('l1', 0, 2), I('r0', 0, 1), I('r1', 0, 2), I('r2', 0, 1), B('dup'), B('cross')]
+    qs.append(Query(name='assoc', body=body_assoc, params=ps, split=['k', 'dup'], timeout=500, pre=['not (dup and cross)', 'not cross or l1 == 2'],
                     witnesses=[({}, {'k': 0, 'l0': 0, 'l1': 2, 'r0': 0, 'r1': 2, 'r2': 1, 'dup': True}),
                                ({}, {'k': 1, 'l0': 0, 'l1': 2, 'r0': 0, 'r1': 0, 'r2': 0, 'dup': False}),
                                ({}, {'k': 3, 'l0': 1, 'l1': 0, 'r0': 0, 'r1': 0, 'r2': 0, 'dup': False})],
                     bound='associations %s of L_INH (multiplicities *, 0..1/1, 1..*/0..2, duplicate names); left field: first member from [G1,G2,A,O], '
                           'second none/same/A; right field: first member O or G1, second none/same/O, third none/O; with and without the same link '
-                          'already present' % KINDS))
+                          'already present, or one cross pair (last left member, first right member) already linked' % KINDS))
     return qs
 
 
